@@ -236,7 +236,10 @@ func Explore(f *Factory, p *Program, names []string, bound, maxRuns int, r *rand
 		prefix []int
 	}
 
-	stack := []item{{}}
+	// schedules are visited in the order of their number of preemptions (all schedules without preemption,
+	// then those with one, ...), so that a cut by maxRuns drops the most contrived interleavings first
+	buckets := make([][]item, bound+1)
+	buckets[0] = []item{{}}
 	seen := map[string]*History{}
 
 	var order []string
@@ -244,9 +247,30 @@ func Explore(f *Factory, p *Program, names []string, bound, maxRuns int, r *rand
 	runs := 0
 	visited := map[string]bool{}
 
-	for len(stack) > 0 && runs < maxRuns {
-		it := stack[len(stack)-1]
-		stack = stack[:len(stack)-1]
+	pop := func() (item, bool) {
+		for b := range buckets {
+			if n := len(buckets[b]); n > 0 {
+				k := n - 1
+				if r != nil {
+					k = r.Intn(n) // seed-dependent order inside a bucket (matters only when maxRuns cuts the search)
+				}
+
+				it := buckets[b][k]
+				buckets[b][k] = buckets[b][n-1]
+				buckets[b] = buckets[b][:n-1]
+
+				return it, true
+			}
+		}
+
+		return item{}, false
+	}
+
+	for runs < maxRuns {
+		it, ok := pop()
+		if !ok {
+			break
+		}
 
 		key := fmt.Sprint(it.prefix)
 		if visited[key] {
@@ -300,18 +324,14 @@ func Explore(f *Factory, p *Program, names []string, bound, maxRuns int, r *rand
 				}
 
 				np := append(append([]int{}, sr.Steps[:k]...), g)
-				if preemptions(np, sr.Choices) > bound {
+
+				pc := preemptions(np, sr.Choices)
+				if pc > bound {
 					continue
 				}
 
-				stack = append(stack, item{prefix: np})
+				buckets[pc] = append(buckets[pc], item{prefix: np})
 			}
-		}
-
-		if r != nil && len(stack) > 1 {
-			// visit the alternatives in a seed-dependent order (matters only when maxRuns cuts the search)
-			i, j := r.Intn(len(stack)), len(stack)-1
-			stack[i], stack[j] = stack[j], stack[i]
 		}
 	}
 
